@@ -6,7 +6,7 @@ ROOT = os.path.dirname(os.path.dirname(os.path.abspath(__file__)))
 CHECKS = {
  "C04": dict(engine="E2-stateright",
    technique="explicit-state model checking: stateright BFS over all reachable states of the real Stack<u8>, each transition compared with a Vec+capacity reference model",
-   text="Complete reachable state graph of the real Stack for contents <= 7 (thorough 8) elements over 3 (4) values and capacities {0..4, MAX}; ~135 operations applied in every state (push, pop*, top*, discard, push_many, try_extend with no, loose-upper-bound and lying size hints, set_max_stack_size, queries); return value incl. Underflow payload, contents, size and max compared with the reference after every transition; plus long stacks (254..300 elements, thorough 126..1000, maxima around the size) x an operation list incl. bulk insertions of 255..300 elements, one and two steps deep. This is the right level because the property quantifies over all histories and the state space is finite once contents are bounded.",
+   text="Complete reachable state graph of the real Stack for contents <= 7 (thorough 8) elements over 3 (4) values and capacities {0..4, MAX}; ~135 operations applied in every state (push, pop*, top*, discard, push_many, try_extend with no, loose-upper-bound and lying size hints, try_extend_from_slice, push_many with an exact-size iterator of usize::MAX items onto a non-empty stack, set_max_stack_size, queries); return value incl. Underflow payload, contents, size and max compared with the reference after every transition; plus long stacks (254..300 elements, thorough 126..1000, maxima around the size) x an operation list incl. bulk insertions of 255..300 elements, one and two steps deep. This is the right level because the property quantifies over all histories and the state space is finite once contents are bounded.",
    note="Trusted: stateright's BFS (cross-checked by a second run with another thread count), the 40-line reference model, u8 standing for all element types (code is parametric).",
    design="4/C04"),
 }
